@@ -540,6 +540,19 @@ class DestHandler:
             self._deferred_lost_segment_handling()
         if self.states.step == TransactionStep.RECV_FILE_DATA_WITH_CHECK_LIMIT_HANDLING:
             self._check_limit_handling()
+        if (
+            packet is not None
+            and pdu_holder.pdu_directive_type == DirectiveType.EOF_PDU
+            and self.states.step
+            in [
+                TransactionStep.WAITING_FOR_MISSING_DATA,
+                TransactionStep.WAITING_FOR_FINISHED_ACK,
+            ]
+        ):
+            # CFDP 4.7.2: Every EOF PDU must be acknowledged. A re-sent EOF PDU means that the
+            # sender did not receive the previous ACK PDU.
+            self._prepare_eof_ack_packet()
+            return
         if self.states.step == TransactionStep.WAITING_FOR_MISSING_DATA:
             if packet is not None and pdu_holder.pdu_type == PduType.FILE_DATA:
                 self._handle_fd_pdu(pdu_holder.to_file_data_pdu())
